@@ -6,3 +6,11 @@ check(
     "Trusted: TLC/SANY, CommunityModules Json/IOUtils, the 40-line observe() projection. Whitespace limited to SP/TAB (exhaustive) and SP/TAB/LF/CR (traces); non-ASCII is one width-1 symbol; beyond the bounds the claim rests on the random traces only.",
     "DESIGN.md#C08",
 )
+check(
+    "C12",
+    ["Dispatcher", "DispatcherTrace"],
+    "TLA+ model of EventDispatcher (P: stable priority order cut at the first stopping listener; A: priority buckets + sorted-list cache) checked by TLC; all operation sequences up to Depth and simulated longer ones replayed on the real dispatcher; random recorded sequences validated by DispatcherTrace.tla",
+    "TLC checks on every reachable state of the model (<= 3/5 listeners, 3 events, 3 priorities) that what a dispatch calls equals the stable priority order of the registrations so far and that a warm cache is never stale; every operation sequence of length 4 (quick) / 5 (thorough) over add/dispatch/get/getall and simulated sequences of length 14 over all operations are replayed on the real EventDispatcher with step-by-step equality; 600/8000 random sequences of up to 40 operations (a quarter through ApplicationConfig.add_event_listener) are decided by TLC with the P-clause evaluated on the observed calls.",
+    "Trusted: TLC, Json module, the Driver projection (listener identity -> registration index). Each registration uses a distinct callable; listeners do not register listeners re-entrantly. Query results (get_listeners, has_listeners, get_listener_priority) are A-clauses: a deviation there is reported as DRIFT, not as a violation, because the statement only speaks about dispatch.",
+    "DESIGN.md#C12",
+)
